@@ -878,7 +878,7 @@ class t2listing(object):
         """Reads simulation title for TOUGH2 listings, at top of file."""
         self._file.seek(0)
         line = ' '
-        while not ('problem title' in line.lower() and ':' in line) or (line == ''):
+        while not (('problem title' in line.lower() and ':' in line) or line == ''):
             line = self.readline()
         if line == '': self.title = ''
         else:
